@@ -77,3 +77,165 @@ Proof.
     split; [vm_compute; reflexivity|]. split; [vm_compute; reflexivity|]. vm_compute. reflexivity.
 Qed.
 Print Assumptions multiexp_correct_nonvacuous.
+
+(** ** Secret sharing ([secret_sharing::share / reveal / reveal_in_group]) *)
+From Coq Require Import Field_theory.
+From Coq Require Import Qcanon.
+From CB Require Import Crypto.Shamir.
+From CB Require Import Crypto.ShamirProofs.
+
+(** Over every field: for every secret, every t-1 further coefficients (degree-(t-1) sharing
+    polynomial, secret as constant term, evaluated as in [share]) and every list of at least t
+    shares at pairwise distinct points, [reveal] - with [lagrange] exactly as coded - returns the
+    secret.  (Non-zero points are not needed for reconstruction, only for secrecy.) *)
+Theorem shamir_reveal : forall (F : Type) (f0 f1 : F) (fadd fsub fmul fdiv : F -> F -> F)
+    (fopp finvf : F -> F) (finv : F -> option F),
+  scalar_field_laws f0 f1 fadd fsub fmul fdiv fopp finvf finv ->
+  (forall x y : F, {x = y} + {x <> y}) ->
+  forall (secret : F) (coeffs xs : list F),
+  NoDup xs -> (S (length coeffs) <= length xs)%nat ->
+  reveal F f0 f1 fadd fsub fmul finv
+    (map (fun x => (x, eval_share F f0 fadd fmul secret coeffs x)) xs) = secret.
+Proof. exact shamir_reveal_closed. Qed.
+Print Assumptions shamir_reveal.
+
+(** The same in any module over the field (the group written additively): the shares are the
+    values of a polynomial with coefficients in the module; [reveal_in_group] returns its constant
+    term. *)
+Theorem shamir_reveal_in_group : forall (F : Type) (f0 f1 : F) (fadd fsub fmul fdiv : F -> F -> F)
+    (fopp finvf : F -> F) (finv : F -> option F),
+  scalar_field_laws f0 f1 fadd fsub fmul fdiv fopp finvf finv ->
+  (forall x y : F, {x = y} + {x <> y}) ->
+  forall (M : Type) (gzero : M) (gadd : M -> M -> M) (smul : F -> M -> M),
+  module_laws f0 f1 fadd fmul gzero gadd smul ->
+  forall (m0 : M) (ms : list M) (xs : list F),
+  NoDup xs -> (S (length ms) <= length xs)%nat ->
+  reveal_in_group F f1 fsub fmul finv M gzero gadd smul
+    (map (fun x => (x, geval F M gzero gadd smul (m0 :: ms) x)) xs) = m0.
+Proof. exact shamir_reveal_in_group_closed. Qed.
+Print Assumptions shamir_reveal_in_group.
+
+(** In the exponent: the group shares [share_i * h] of a field sharing reconstruct [secret * h]. *)
+Theorem shamir_reveal_in_exponent : forall (F : Type) (f0 f1 : F) (fadd fsub fmul fdiv : F -> F -> F)
+    (fopp finvf : F -> F) (finv : F -> option F),
+  scalar_field_laws f0 f1 fadd fsub fmul fdiv fopp finvf finv ->
+  (forall x y : F, {x = y} + {x <> y}) ->
+  forall (M : Type) (gzero : M) (gadd : M -> M -> M) (smul : F -> M -> M),
+  module_laws f0 f1 fadd fmul gzero gadd smul ->
+  forall (h : M) (secret : F) (coeffs xs : list F),
+  NoDup xs -> (S (length coeffs) <= length xs)%nat ->
+  reveal_in_group F f1 fsub fmul finv M gzero gadd smul
+    (map (fun x => (x, smul (eval_share F f0 fadd fmul secret coeffs x) h)) xs) = smul secret h.
+Proof. exact shamir_reveal_exponent_closed. Qed.
+Print Assumptions shamir_reveal_in_exponent.
+
+(** Fewer shares carry no information: for any t-1 shares at distinct non-zero points and ANY
+    candidate secret there are t-1 coefficients of a sharing polynomial consistent with both. *)
+Theorem shamir_fewer_unconstrained : forall (F : Type) (f0 f1 : F) (fadd fsub fmul fdiv : F -> F -> F)
+    (fopp finvf : F -> F) (finv : F -> option F),
+  scalar_field_laws f0 f1 fadd fsub fmul fdiv fopp finvf finv ->
+  (forall x y : F, {x = y} + {x <> y}) ->
+  forall (xs ys : list F) (s : F),
+  NoDup xs -> (forall x, In x xs -> x <> f0) -> length ys = length xs ->
+  exists coeffs, length coeffs = length xs /\
+    forall x y, In (x, y) (combine xs ys) -> eval_share F f0 fadd fmul s coeffs x = y.
+Proof. exact shamir_fewer_closed. Qed.
+Print Assumptions shamir_fewer_unconstrained.
+
+(** Non-vacuity: the rationals are an instance of the field and module hypotheses. *)
+Example shamir_hypotheses_satisfiable :
+  let finv := fun x : Qc => if Qc_eq_dec x 0%Qc then None else Some (Qcinv x) in
+  scalar_field_laws 0%Qc 1%Qc Qcplus Qcminus Qcmult Qcdiv Qcopp Qcinv finv /\
+  module_laws 0%Qc 1%Qc Qcplus Qcmult 0%Qc Qcplus Qcmult /\
+  NoDup [1%Qc; (1 + 1)%Qc; (1 + 1 + 1)%Qc].
+Proof.
+  cbv zeta. split; [|split].
+  - split; [exact Qcft|]. split.
+    + destruct (Qc_eq_dec 0 0); [reflexivity|congruence].
+    + intros x Hx. destruct (Qc_eq_dec x 0); [contradiction|reflexivity].
+  - unfold module_laws. repeat split; intros; ring.
+  - repeat constructor; cbn [In]; intros H; repeat destruct H as [H|H]; try discriminate; assumption.
+Qed.
+Print Assumptions shamir_hypotheses_satisfiable.
+
+(** ** Scalar encodings *)
+From Coq Require Import NArith.
+From CB Require Import Crypto.ScalarCodec.
+From CB Require Import Crypto.ScalarCodecProofs.
+
+(** 32 bytes big-endian, reject >= r: round trip, canonicity, rejection (for every modulus
+    r <= 2^256, in particular [bls_r]). *)
+Theorem scalar_codec_canonical : forall r : N, (r <= 2 ^ 256)%N ->
+  (forall x, (x < r)%N -> scalar_decode r (scalar_encode x) = Some x) /\
+  (forall bs x, bytes_ok bs -> scalar_decode r bs = Some x ->
+                bs = scalar_encode x /\ (x < r)%N /\ length bs = 32%nat) /\
+  (forall bs, (r <= be_val bs)%N -> scalar_decode r bs = None).
+Proof.
+  intros r Hr. split; [intros; apply scalar_codec_rt; assumption|].
+  split; [exact (scalar_codec_canon r)|exact (scalar_codec_rejects r)].
+Qed.
+Print Assumptions scalar_codec_canonical.
+
+(** the little-endian codec of ristretto scalars *)
+Theorem scalar_codec_le_canonical : forall r : N, (r <= 2 ^ 256)%N ->
+  (forall x, (x < r)%N -> scalar_decode_le r (scalar_encode_le x) = Some x) /\
+  (forall bs x, bytes_ok bs -> scalar_decode_le r bs = Some x ->
+                bs = scalar_encode_le x /\ (x < r)%N /\ length bs = 32%nat).
+Proof.
+  intros r Hr. split; [intros; apply scalar_codec_le_rt; assumption|exact (scalar_codec_le_canon r)].
+Qed.
+Print Assumptions scalar_codec_le_canonical.
+
+(** [scalar_from_bytes] takes exactly CAPACITY bits (254 for BLS12-381, 252 for ristretto) of the
+    little-endian value of the first 32 bytes, for byte strings of every length; the
+    [from_repr] inside never fails. *)
+Theorem scalar_from_bytes_capacity : forall bs, bytes_ok bs ->
+  bls_scalar_from_bytes bs = Some (le_val (firstn 32 bs) mod 2 ^ 254)%N /\
+  ed_scalar_from_bytes bs = Some (le_val (firstn 32 bs) mod 2 ^ 252)%N.
+Proof. intros bs H. split; [apply bls_scalar_from_bytes_capacity|apply ed_scalar_from_bytes_capacity]; assumption. Qed.
+Print Assumptions scalar_from_bytes_capacity.
+
+(** ** keygen_bls *)
+(** For every 48-byte HKDF output the 31/17-byte split with the 2^248 shift computes
+    OS2IP(okm) mod r; the loop returns only a non-zero scalar: the reduction of the first round
+    whose reduction is non-zero. *)
+Theorem keygen_bls_is_os2ip_mod_r :
+  (forall okm, bytes_ok okm -> length okm = 48%nat -> keygen_round okm = Some (be_val okm mod bls_r)%N) /\
+  (forall okms, (forall i, bytes_ok (okms i) /\ length (okms i) = 48%nat) ->
+     forall fuel start sk, keygen_loop fuel okms start = Some sk ->
+       sk <> 0%N /\ exists i, (start <= i)%nat /\ sk = (be_val (okms i) mod bls_r)%N /\
+                              forall j, (start <= j < i)%nat -> (be_val (okms j) mod bls_r = 0)%N).
+Proof. split; [exact keygen_round_os2ip|exact keygen_loop_spec]. Qed.
+Print Assumptions keygen_bls_is_os2ip_mod_r.
+
+(** ** Derivation paths *)
+From CB Require Import Crypto.Paths.
+From CB Require Import Crypto.PathsProofs.
+
+(** [checked_harden] accepts exactly the u32 indices below 2^31 *)
+Theorem checked_harden_rejects_hardened : forall i : N, (i < 2 ^ 32)%N ->
+  checked_harden i = if (i <? 2 ^ 31)%N then Some (i + 2 ^ 31)%N else None.
+Proof. exact checked_harden_spec_lemma. Qed.
+Print Assumptions checked_harden_rejects_hardened.
+
+(** distinct (network, key kind, indices) give distinct lists of hardened indices, hence distinct
+    chains of HMAC inputs *)
+Theorem paths_injective : forall n1 k1 n2 k2 p, wf_kind k1 -> wf_kind k2 ->
+  path_of n1 k1 = Some p -> path_of n2 k2 = Some p -> n1 = n2 /\ k1 = k2.
+Proof. exact paths_injective_lemma. Qed.
+Print Assumptions paths_injective.
+
+(** no derivation path is a proper prefix of another one *)
+Theorem paths_prefix_free : forall n1 k1 n2 k2 p1 p2 q, wf_kind k1 -> wf_kind k2 ->
+  path_of n1 k1 = Some p1 -> path_of n2 k2 = Some p2 -> p2 = p1 ++ q ->
+  n1 = n2 /\ k1 = k2 /\ q = [].
+Proof. exact paths_prefix_free_lemma. Qed.
+Print Assumptions paths_prefix_free.
+
+Example paths_nonvacuous :
+  wf_kind (AccountSigningKey 0 55 7) /\
+  path_of Mainnet (AccountSigningKey 0 55 7)
+  = Some [2147483692; 2147484567; 2147483648; 2147483703; 2147483648; 2147483655]%N /\
+  path_of Mainnet (AccountSigningKey 0 2147483648 7) = None.
+Proof. split; [cbn; unfold u32; repeat split; reflexivity|split; reflexivity]. Qed.
+Print Assumptions paths_nonvacuous.
